@@ -1054,7 +1054,7 @@ class Parser:
         """
         token = self.peek()
         types = []
-        if token.value == "implements":
+        if token.__class__ is Name and token.value == "implements":
             self.advance()
             self.skip(Ampersand)
             while True:
